@@ -43,7 +43,6 @@ type poolEntry struct {
 	v2m  *protosession.SessionTokenV2
 	b    bSpec
 	bm   *protoacl.BearerToken
-	objs map[uint64]*object.Object // creation epoch -> object carrying the token
 }
 
 func (e *poolEntry) bytes() []byte {
